@@ -562,16 +562,24 @@ def relayout(a):
     import numpy as np
     if a.ndim != 2 or a.size == 0 or os.environ.get("VERIF_NO_RELAYOUT"):
         return a
-    h = int(hashlib.sha256(a.tobytes() + str(a.dtype).encode()).hexdigest()[:4], 16) % 10
+    h = int(hashlib.sha256(a.tobytes() + str(a.dtype).encode()).hexdigest()[:4], 16) % 14
     if h < 6:
         return a
     if h < 8:
         return np.asfortranarray(a)
-    big = np.zeros((a.shape[0] * 2, a.shape[1] * 2), dtype=a.dtype)
-    big[::2, ::2] = a
-    v = big[::2, ::2]
-    assert not v.flags["C_CONTIGUOUS"] or a.size <= 1
-    return v
+    if h < 10:
+        big = np.zeros((a.shape[0] * 2, a.shape[1] * 2), dtype=a.dtype)
+        big[::2, ::2] = a
+        v = big[::2, ::2]
+        assert not v.flags["C_CONTIGUOUS"] or a.size <= 1
+        return v
+    if h < 12:
+        # negative strides in both dimensions: a reversed view of a reversed copy
+        return np.array(a[::-1, ::-1])[::-1, ::-1]
+    # a read-only array: a legal argument for anything that does not write into its inputs
+    r = np.array(a)
+    r.setflags(write=False)
+    return r
 
 
 def to_np(M, dtype=float):
@@ -664,16 +672,23 @@ def persist(name, arr, of=None):
     arr = np.asarray(arr)
     if os.environ.get("VERIF_NO_PERSIST") or arr.ndim == 0:
         return of(arr) if of is not None else arr
+    ro = not arr.flags["WRITEABLE"]
     key = (name, arr.shape, str(arr.dtype), bool(arr.flags["C_CONTIGUOUS"]), bool(arr.flags["F_CONTIGUOUS"]),
-           getattr(of, "__qualname__", None))
+           getattr(of, "__qualname__", None), ro)
     ent = _PERSIST.get(key)
     if ent is None:
         buf = np.array(arr, order="K") if (arr.flags["C_CONTIGUOUS"] or arr.flags["F_CONTIGUOUS"]) else arr
+        if ro:
+            buf.setflags(write=False)       # a read-only argument stays read-only (views created from it are read-only too)
         view = of(buf) if of is not None else buf
         _PERSIST[key] = (buf, view)
         return view
     buf, view = ent
+    if ro:
+        buf.setflags(write=True)
     buf[...] = arr
+    if ro:
+        buf.setflags(write=False)
     if of is not None:
         of(buf)          # validation of the new contents (raises exactly as a fresh construction would)
     return view
